@@ -59,7 +59,12 @@ def evalLineV (line : String) : Verdict × UInt64 :=
   let v := match line.splitOn "\t" with
     | prop :: op :: rest =>
       let (args, impl) := splitArrow rest
-      dispatch prop op args impl
+      -- a case on which the real code did not return within the harness's time limit: every
+      -- property promises a result (or a panic where it says so), so this is a violation as such
+      if impl == "hang" then
+        { model := "", mi := false, si := false, tag := "hang", trivial := false,
+          note := "the implementation did not return within the case time limit" }
+      else dispatch prop op args impl
     | _ => badInput "short line"
   (v, fnv line)
 
